@@ -220,6 +220,10 @@ mut("M98", "conn.go", "			size, err := strconv.ParseUint(value, 10, 32)\n			if e
 mut("M99", "conn.go", "		if err == nil && !isPrintableASCII(aAddr) {\n			err = errors.New(\"illegal address:\" + aAddr)\n		}\n", "", ["C11"], "typed-address", note="rfc822 ORCPT with non-printable decoded octets accepted")
 mut("M85", "conn.go", "					c.handlePanic(err, status)\n\n					dataResult <- errPanic", "					c.handlePanic(err, c.bdatStatus)\n\n					dataResult <- errPanic", ["C13", "C20"], "", note="BDAT recover handler fills whatever collector the connection holds now")
 mut("M86", "conn.go", "	if status != nil {\n		status.fillRemaining(errPanic)\n	}\n\n	stack := debug.Stack()", "	stack := debug.Stack()", ["C13"], "every-recipient-of-the-given-collector-is-answered", note="handlePanic no longer answers the recipients (command loop waits for ever)")
+mut("P3r", "data.go", "		if r.n <= 0 && !r.skipEndMarker() {", "		if r.n <= 0 {", ["C06"], "limit-transparent", note="regression of fix f7f3907 (exactly N octets refused)")
+mut("M87", "data.go", "	case stateDot:\n		rest = \"\\r\\n\"", "	case stateDot:\n		rest = \"\\n\"", ["C02", "C06"], "skipEndMarker", note="at the size limit <CRLF>.<LF> is taken for the end marker")
+mut("M88", "data.go", "	r.r.Discard(len(rest))\n	r.state = stateEOF", "	r.state = stateEOF", ["C02", "C06"], "skipEndMarker", note="end marker recognised at the size limit but left in the stream")
+mut("M89", "data.go", "	case stateEOF:\n		return true\n	default:", "	default:", ["C06", "C02"], "", note="a read after the end of an exactly-N message reports too large")
 # ---------------------------------------------------------------- client.go
 mut("M30", "client.go", "	if d.closed {\n		return fmt.Errorf(\"smtp: data writer closed twice\")\n	}\n	d.closed = true\n", "	if d.closed {\n		return fmt.Errorf(\"smtp: data writer closed twice\")\n	}\n", ["C16"], "always-closed-afterwards", note="dataCloser never marked closed (also regression of fix 755bba6)")
 mut("P13r", "client.go", "		// The transaction is over, its recipients must not be reported\n		// again for the next one on this connection.\n		d.c.rcpts = nil\n", "", ["C18"], "recipients-forgotten", note="regression of fix beb567b (LMTP recipients carried over)")
